@@ -124,6 +124,11 @@ fn c17(g: &mut Gen) {
                 };
                 lines.push(format!("bits rw {} {} {} {} {} {} {}", off, width, value, bg[0], bg[1], bg[2], bg[3]));
             }
+            // alternating all-zero / all-one words (a zero word holding the start of a field whose end lies in a full word, and
+            // the reverse), with a zero and a full value
+            for (value, bg) in [(0u64, [0u64, MAXU, 0, MAXU]), (MAXU, [MAXU, 0, MAXU, 0]), (0x5555_5555_5555_5555, [0, 0xFF, 0, 0xFF00])] {
+                lines.push(format!("bits rw {} {} {} {} {} {} {}", off, width, value, bg[0], bg[1], bg[2], bg[3]));
+            }
         }
         g.group(lines);
     }
